@@ -323,7 +323,28 @@ class Conn:
 
             self.ct = GatedWS(None, self.cw)
             self.st = TransportAioHttpWebsocket(self.sw)
+            for tr in (self.ct, self.st):
+                self._cap_queue(tr)
             self.server_pump = loop.create_task(self.st.handle_incoming_ws_messages())
+
+    QUEUE_CAP = 5000
+
+    def _cap_queue(self, transport):
+        """A decoder that never terminates must be reported, not exhaust memory: cap the incoming frame queue."""
+        q = transport._incoming_frame_queue
+        orig = q.put_nowait
+        world = self.world
+        count = [0]
+
+        def put_nowait(item):
+            count[0] += 1
+            if count[0] > self.QUEUE_CAP:
+                if 'incoming-queue-cap' not in world.errors:
+                    world.errors.append('incoming-queue-cap')
+                raise Livelock('message pump produced more than %d frames' % self.QUEUE_CAP)
+            return orig(item)
+
+        q.put_nowait = put_nowait
 
     def dirs(self):
         return (self.c2s, self.s2c)
